@@ -33,8 +33,9 @@ MUTANTS = [
 PROOF_KEYS = ['levenshtein_distance', 'levenshtein_alignment', 'levenshtein_alignment_path',
               'levenshtein_distance_substring', 'levenshtein_alignment_substring']
 
-COSTS_Q = [(1, 1, 1), (1, 2, 3), (3, 1, 2)]
-COSTS_T = [(1, 1, 1), (1, 2, 3), (3, 1, 2), (2, 4, 1), (4, 3, 4), (2, 2, 1)]
+# (sub, ins, del); (4, 1, 1): a substitution dearer than a deletion plus an insertion
+COSTS_Q = [(1, 1, 1), (1, 2, 3), (3, 1, 2), (4, 1, 1)]
+COSTS_T = [(1, 1, 1), (1, 2, 3), (3, 1, 2), (4, 1, 1), (2, 4, 1), (4, 3, 4), (2, 2, 1), (3, 1, 1)]
 
 
 def seqs(alphabet, max_len):
